@@ -63,6 +63,7 @@ type Term struct {
 	C    *big.Int // constant value (BV: unsigned; Int; Bool: 0/1)
 	Name string   // variable name (without bars)
 	lin  *lin
+	fp   bool // contains floating-point sub-terms
 }
 
 var (
@@ -94,6 +95,12 @@ func intern(op string, sort *Sort, name string, c *big.Int, args ...*Term) *Term
 	}
 	termN++
 	t := &Term{id: termN, Op: op, Args: args, Sort: sort, C: c, Name: name}
+	t.fp = sort.K == KFP || sort.K > KArr
+	for _, a := range args {
+		if a.fp {
+			t.fp = true
+		}
+	}
 	termTab[k] = t
 	return t
 }
